@@ -236,6 +236,11 @@ Step1(s0, ev) ==
        [] k = "lost"      -> EndConn(s, ev.c + 1, "lost")
        [] k = "peereof"   -> [s EXCEPT !.conn[ev.c + 1] = IF @ = "up" THEN "half" ELSE @]
        [] k = "txframe"   -> TxFrame(s, ev)
+       [] k = "txframeapi" ->        \* whole-client traces: frames are explained by ClientContract
+            LET s1 == IF Op(s) = "no" /\ ev.nw > 0 THEN V(s, "WriteAfterClose") ELSE s
+                s2 == IF ev.ok /\ (ev.from # CLIENT \/ ev.to # (IF ev.type = EXT_TYPE THEN CONSOLE_EXT ELSE CONSOLE))
+                      THEN V(s1, "Addressing") ELSE s1
+            IN IF ~ev.ok THEN V(s2, "GarbledFrame") ELSE s2
        [] k = "txgarbage" -> V(s, "GarbledFrame")
        [] k = "rxframe"   -> RxFrame(s, ev)
        [] k = "rxdefect"  -> RxDefect(s, ev)
